@@ -17,6 +17,7 @@ type Val struct {
 	Addr *Addr      // where the value lives, when it denotes a location
 	// map views
 	isDom bool
+	KeyTy types.Type // key type of a domain/set value, when known
 }
 
 type Env struct {
@@ -115,6 +116,20 @@ func (e *Env) resolveType(s string) types.Type {
 	}
 	if strings.HasPrefix(s, "[]") {
 		return types.NewSlice(e.resolveType(s[2:]))
+	}
+	if strings.HasPrefix(s, "map[") {
+		d := 0
+		for i := 3; i < len(s); i++ {
+			switch s[i] {
+			case '[':
+				d++
+			case ']':
+				d--
+				if d == 0 {
+					return types.NewMap(e.resolveType(s[4:i]), e.resolveType(s[i+1:]))
+				}
+			}
+		}
 	}
 	switch s {
 	case "int":
@@ -273,17 +288,48 @@ func (e *Env) evalIdent(name string) Val {
 			}
 		}
 		e.fail("loopi outside an index loop")
+	case "ranged":
+		// the slice a "for ... range <slice>" loop iterates over
+		if e.loop != nil && e.fr != nil {
+			for b := range e.loop.blocks {
+				for _, in := range b.Instrs {
+					if ia, ok := in.(*ssa.IndexAddr); ok {
+						if _, isSl := ia.X.Type().Underlying().(*types.Slice); !isSl {
+							continue
+						}
+						// the index is the loop's incremented rangeindex
+						var ld *ssa.UnOp
+						switch ix := ia.Index.(type) {
+						case *ssa.BinOp:
+							ld, _ = ix.X.(*ssa.UnOp)
+						case *ssa.UnOp:
+							ld = ix
+						}
+						if ld != nil {
+							if a, ok := ld.X.(*ssa.Alloc); ok && a.Comment == "rangeindex" {
+								if t, ok := e.fr.vals[ia.X]; ok {
+									return Val{T: t, Ty: ia.X.Type()}
+								}
+							}
+						}
+					}
+				}
+			}
+		}
+		e.fail("ranged outside a slice range loop")
 	case "visited":
 		if e.loop != nil && e.fr != nil {
 			if it := e.loopIter(); it != nil {
 				ks := keySort(elemSort(u.varSort["MD:"+shortTypeName(it.mapT.Underlying())]))
 				_ = ks
-				return Val{T: u.get(e.cur, it.visited, u.varSort[it.visited]), isDom: true}
+				return Val{T: u.get(e.cur, it.visited, u.varSort[it.visited]), isDom: true, KeyTy: it.mapT.Underlying().(*types.Map).Key()}
 			}
 		}
 		e.fail("visited outside a map range loop")
 	case "top":
 		return spec(u.top(e.cur))
+	case "spawned":
+		return spec(u.get(e.cur, "G:spawned", SInt))
 	}
 	// named local of the frame (loop invariants, ghost updates)
 	if e.fr != nil {
@@ -516,7 +562,7 @@ func (e *Env) evalIndex(x *EIndex) Val {
 			// Go semantics: the zero value when the key is absent (or the map is nil)
 			vals := u.mapVals(e.cur, v.Ty, v.T)
 			dom := u.mapDom(e.cur, v.Ty, v.T)
-			return e.typed(Val{T: Ite(And(Not(Eq(v.T, IntN(0))), Select(dom, i.T)), Select(vals, i.T), u.g.reg.Zero(t.Elem())), Ty: t.Elem()})
+			return e.typed(Val{T: Ite(Select(dom, i.T), Select(vals, i.T), u.g.reg.Zero(t.Elem())), Ty: t.Elem()})
 		case *types.Slice:
 			return Val{T: Select(u.g.reg.SlData(v.T), i.T), Ty: t.Elem()}
 		case *types.Array:
@@ -541,9 +587,22 @@ func (e *Env) evalIndex(x *EIndex) Val {
 
 func (e *Env) evalQuant(x *EQuant) Val {
 	u := e.u
+	if u.loadLog == nil && u.pure == 0 {
+		// outermost quantifier: every heap array read under it gets its well-typedness axiom
+		u.loadLog = map[string]loadedArr{}
+		defer func() {
+			log := u.loadLog
+			u.loadLog = nil
+			for _, k := range sortedKeys(log) {
+				u.heapAxiom(e.cur, log[k].key, log[k].arr)
+			}
+		}()
+	}
 	env := e
 	var decls []string
 	var guards []Term
+	var pats []string
+	var mapV Term
 	for _, b := range x.Binders {
 		name := u.freshName("q_" + b.Name)
 		name = strings.ReplaceAll(name, "!", "_")
@@ -554,19 +613,32 @@ func (e *Env) evalQuant(x *EQuant) Val {
 			var kt types.Type
 			if m.isDom || m.Ty == nil {
 				dom = m.T
+				kt = m.KeyTy
 			} else {
 				mt, ok := m.Ty.Underlying().(*types.Map)
 				if !ok {
 					e.fail("dom() of non-map %s", b.A.exprString())
 				}
 				dom = u.mapDom(env.cur, m.Ty, m.T)
-				dom = Ite(Eq(m.T, IntN(0)), ConstArray(dom.Sort, TFalse), dom)
+				mapV = u.mapVals(env.cur, m.Ty, m.T)
 				kt = mt.Key()
 			}
 			ks := keySort(dom.Sort)
 			decls = append(decls, fmt.Sprintf("(%s %s)", name, ks))
 			kv := Term{name, ks}
 			guards = append(guards, Select(dom, kv))
+			if kt != nil {
+				if b, isB := kt.Underlying().(*types.Basic); isB && b.Info()&types.IsInteger != 0 {
+					// keys of a map are values of its key type
+					guards = append(guards, u.typeFacts(env.cur, kv, kt))
+				}
+			}
+			if len(x.Binders) == 1 {
+				pats = append(pats, Select(dom, kv).S)
+				if mapV.S != "" {
+					pats = append(pats, Select(mapV, kv).S)
+				}
+			}
 			env = env.bind(b.Name, Val{T: kv, Ty: kt})
 		case "range":
 			lo := env.eval(b.A).T
@@ -613,6 +685,22 @@ func (e *Env) evalQuant(x *EQuant) Val {
 		q = "exists"
 		inner = And(g, body)
 	}
+	if x.Forall && len(x.Binders) == 1 {
+		// triggers: every (select <array not mentioning the bound variable> <bound variable>) in the body
+		var name string
+		if i := strings.Index(decls[0], " "); i > 0 {
+			name = decls[0][1:i]
+		}
+		ps := selectPatterns(inner.S, name)
+		_ = pats
+		if len(ps) > 0 && len(ps) <= 8 {
+			var sb []string
+			for _, p := range ps {
+				sb = append(sb, ":pattern ("+p+")")
+			}
+			return spec(Term{fmt.Sprintf("(%s (%s) (! %s %s))", q, strings.Join(decls, " "), inner.S, strings.Join(sb, " ")), SBool})
+		}
+	}
 	return spec(Term{fmt.Sprintf("(%s (%s) %s)", q, strings.Join(decls, " "), inner.S), SBool})
 }
 
@@ -644,7 +732,7 @@ func (e *Env) evalCall(x *ECall) Val {
 		if v.Ty != nil {
 			if _, ok := v.Ty.Underlying().(*types.Map); ok {
 				dom := u.mapDom(e.cur, v.Ty, v.T)
-				return spec(Ite(Eq(v.T, IntN(0)), IntN(0), reg.Card(dom)))
+				return spec(reg.Card(dom))
 			}
 		}
 		e.fail("len of %s", x.Args[0].exprString())
@@ -655,7 +743,7 @@ func (e *Env) evalCall(x *ECall) Val {
 		}
 		d := u.mapDom(e.cur, v.Ty, v.T)
 		// the nil map has an empty domain
-		return Val{T: Ite(Eq(v.T, IntN(0)), ConstArray(d.Sort, TFalse), d), isDom: true}
+		return Val{T: d, isDom: true, KeyTy: v.Ty.Underlying().(*types.Map).Key()}
 	case "fresh":
 		v := e.eval(x.Args[0])
 		return spec(And(App(SBool, ">=", v.T, u.top(e.old)), App(SBool, "<", v.T, u.top(e.cur))))
@@ -674,6 +762,15 @@ func (e *Env) evalCall(x *ECall) Val {
 	case "held":
 		lk, ref := e.evalMutex(x.Args[0])
 		return spec(Select(u.get(e.cur, lk, ArraySort(SInt, SInt)), ref))
+	case "nolocks":
+		// nolocks(Type.mutex): this call chain holds no mutex of that kind
+		sel, ok := x.Args[0].(*ESel)
+		if !ok {
+			e.fail("nolocks wants Type.mutex")
+		}
+		t := e.resolveType(sel.X.exprString())
+		lk, so := u.lockKey(t, sel.Name)
+		return spec(Eq(u.get(e.cur, lk, so), ConstArray(so, IntN(0))))
 	case "istype":
 		v := e.eval(x.Args[0])
 		t := e.resolveType(x.Args[1].exprString())
@@ -710,11 +807,11 @@ func (e *Env) evalCall(x *ECall) Val {
 	case "add":
 		s := e.eval(x.Args[0])
 		k := e.eval(x.Args[1])
-		return Val{T: Store(s.T, k.T, TTrue), isDom: true}
+		return Val{T: Store(s.T, k.T, TTrue), isDom: true, KeyTy: s.KeyTy}
 	case "remove":
 		s := e.eval(x.Args[0])
 		k := e.eval(x.Args[1])
-		return Val{T: Store(s.T, k.T, TFalse), isDom: true}
+		return Val{T: Store(s.T, k.T, TFalse), isDom: true, KeyTy: s.KeyTy}
 	case "store":
 		s := e.eval(x.Args[0])
 		k := e.eval(x.Args[1])
@@ -981,4 +1078,58 @@ func (e *Env) evalMutex(x Expr) (string, Term) {
 	}
 	lk, _ := e.u.lockKey(pt.Elem(), sel.Name)
 	return lk, base.T
+}
+
+// selectPatterns returns the distinct sub-terms "(select A v)" of body where A does not mention v.
+func selectPatterns(body, v string) []string {
+	var out []string
+	seen := map[string]bool{}
+	const pfx = "(select "
+	for i := 0; i+len(pfx) < len(body); i++ {
+		if !strings.HasPrefix(body[i:], pfx) {
+			continue
+		}
+		// parse the array argument
+		j := i + len(pfx)
+		arr := firstSexp(body[j:])
+		k := j + len(arr)
+		if k >= len(body) || body[k] != ' ' {
+			continue
+		}
+		idx := firstSexp(body[k+1:])
+		if idx != v {
+			continue
+		}
+		if containsToken(arr, v) {
+			continue
+		}
+		bad := false
+		for _, op := range []string{"(not ", "(or ", "(and ", "(=> ", "(= ", "(ite ", "(< ", "(<= ", "(> ", "(>= ", "(+ ", "(- ", "(* ", "(distinct ", "(forall ", "(exists "} {
+			if strings.Contains(arr, op) {
+				bad = true
+			}
+		}
+		if bad {
+			continue
+		}
+		end := k + 1 + len(idx)
+		if end >= len(body) || body[end] != ')' {
+			continue
+		}
+		t := body[i : end+1]
+		if !seen[t] {
+			seen[t] = true
+			out = append(out, t)
+		}
+	}
+	return out
+}
+
+func containsToken(s, tok string) bool {
+	for _, f := range strings.FieldsFunc(s, func(r rune) bool { return r == ' ' || r == '(' || r == ')' }) {
+		if f == tok {
+			return true
+		}
+	}
+	return false
 }
